@@ -166,6 +166,8 @@ def c17(tier, replay_file=None):
             "pattern_lists": len(cases), "exhaustive": False,
         }
         res.coverage.update(scal)
+        if tier == "thorough" and not res.tool_errors:
+            res.coverage.update(sd_oracle_check(res, wd, tier))
         res.assumptions = ["SystemdExec.tla is a faithful transcription of systemd 252's ExecStart reader (cross-checked against the real `systemd --test` in the thorough tier when available)",
                            "patterns are non-empty and contain no NUL"]
     except ToolError as e:
@@ -858,3 +860,108 @@ def c16_e2e(res, wd, cases, replay_file=None):
     report(res, bad, kn, {c["id"]: c for c in cases}, {r["id"]: r for r in rows}, "E3-device-list-e2e")
     return {"e2e_cases": judged, "e2e_how": "the real binary `remap --verbose` under unshare -m with fabricated /proc/bus/input/devices, /sys/devices and /dev/input on %d lists, "
                                              "--all-keyboards and --dev-file --only-if-keyboard, selection read from its verbose output and judged by DevSelect.tla" % judged}
+
+
+# ------------------------------------------------------------------ C17: self-check of the oracle against the real systemd
+
+def parse_command_line_dump(text):
+    """argv from the `Command Line:` line of `systemd --test`: quote_command_line() separates words by one blank and passes each
+    through shell_maybe_quote(): a word that needs it is wrapped in double quotes; inside, control characters are C-escaped
+    (\\a \\b \\f \\n \\r \\t \\v, octal \\NNN), and \\ " $ ` get a backslash."""
+    ctl = {"a": 7, "b": 8, "f": 12, "n": 10, "r": 13, "t": 9, "v": 11}
+    out, i, n = [], 0, len(text)
+    while i < n:
+        if text[i] == "\n":
+            break
+        if text[i] == " ":
+            i += 1
+            continue
+        w = []
+        if text[i] == '"':
+            i += 1
+            while i < n and text[i] != '"':
+                if text[i] == "\\" and i + 1 < n:
+                    c = text[i + 1]
+                    if c in ctl:
+                        w.append(ctl[c])
+                        i += 2
+                        continue
+                    if c in "01234567" and i + 3 < n and text[i + 2] in "01234567" and text[i + 3] in "01234567":
+                        w.append(int(text[i + 1:i + 4], 8))
+                        i += 4
+                        continue
+                    i += 1
+                w.append(ord(text[i]))
+                i += 1
+            i += 1
+        else:
+            while i < n and text[i] not in " \n":
+                w.append(ord(text[i]))
+                i += 1
+        out.append(w)
+    return out
+
+
+def sd_oracle_check(res, wd, tier):
+    import subprocess, shutil
+    sd = "/lib/systemd/systemd"
+    if not (os.path.exists(sd) and shutil.which("setpriv")):
+        res.notes.append("oracle self-check skipped: systemd or setpriv not available")
+        return {"oracle_selfcheck": "skipped (systemd/setpriv not available)"}
+    t0 = time.time()
+    opath, g = generate(wd, "SdOracle", {"Depth": 3}, out="sd_expected.ndjson", timeout=1800)
+    exp = read_ndjson(opath)
+    d = os.path.join(wd, "sd")
+    shutil.rmtree(d, ignore_errors=True)
+    os.makedirs(os.path.join(d, "units"))
+    os.makedirs(os.path.join(d, "run"))
+    for p in (d, os.path.join(d, "units"), os.path.join(d, "run"), wd, os.path.dirname(wd), ROOT):
+        try:
+            os.chmod(p, os.stat(p).st_mode | 0o055)
+        except OSError:
+            pass
+    os.chmod(os.path.join(d, "run"), 0o777)
+    wants = []
+    for c in exp:
+        raw = "".join(chr(x) for x in c["raw"])
+        with open(os.path.join(d, "units", "c%d.service" % c["id"]), "w") as f:
+            f.write("[Service]\nExecStart=/bin/true --x %s --y\n" % raw)
+        wants.append("c%d.service" % c["id"])
+    with open(os.path.join(d, "units", "default.target"), "w") as f:
+        f.write("[Unit]\n" + "".join("Wants=%s\n" % w for w in wants))
+    env = {"HOME": d, "XDG_RUNTIME_DIR": os.path.join(d, "run"), "SYSTEMD_UNIT_PATH": os.path.join(d, "units"), "PATH": os.environ.get("PATH", "")}
+    try:
+        p = subprocess.run(["setpriv", "--reuid=65534", "--regid=65534", "--clear-groups", sd, "--test", "--user", "--unit=default.target", "--log-target=console"],
+                           env=env, stdout=subprocess.PIPE, stderr=subprocess.STDOUT, timeout=600)
+    except subprocess.TimeoutExpired:
+        res.notes.append("oracle self-check skipped: systemd --test timed out")
+        return {"oracle_selfcheck": "skipped (timeout)"}
+    dump = p.stdout.decode("latin-1")
+    got = {}
+    for m in re.finditer(r"-> Unit c(\d+)\.service:\n(.*?)(?=\n\t-> Unit |\Z)", dump, re.S):
+        body = m.group(2)
+        cl = re.search(r"Command Line: ", body)
+        state = re.search(r"Unit Load State: (\S+)", body)
+        got[int(m.group(1))] = {"argv": parse_command_line_dump(body[cl.end():]) if cl else None, "state": state.group(1) if state else "?"}
+    if len(got) < len(exp) * 0.9:
+        res.notes.append("oracle self-check skipped: systemd --test dumped only %d of %d units (%s)" % (len(got), len(exp), dump[-300:].replace("\n", " ")))
+        return {"oracle_selfcheck": "skipped (no dump)"}
+    dis = []
+    for c in exp:
+        g1 = got.get(c["id"])
+        if g1 is None:
+            continue
+        spec_ok = c["ok"] and not c["semi"]
+        real_ok = g1["argv"] is not None
+        if c["ok"] and c["semi"]:
+            # a second command on the line: systemd shows the first one; C17 treats it as a failure either way
+            continue
+        def same(a, b):
+            # a word in which the spec expanded a specifier (marker value) matches whatever systemd expanded it to
+            return len(a) == len(b) and all(any(x >= 2000000 for x in wa) or wa == wb for wa, wb in zip(a, b))
+        if spec_ok != real_ok or (spec_ok and not same(c["argv"], g1["argv"])):
+            dis.append({"raw": "".join(chr(x) for x in c["raw"]), "spec": c["argv"] if spec_ok else "invalid", "systemd": g1["argv"] if real_ok else "invalid (" + g1["state"] + ")"})
+    log("[oracle] SystemdExec!Parsed vs systemd --test on %d raw argument texts: %d disagreements, %.1fs" % (len(exp), len(dis), time.time() - t0))
+    if dis:
+        res.tool_errors.append("the C17 oracle (SystemdExec.tla) disagrees with the real systemd on %d of %d texts, e.g. %s" % (len(dis), len(exp), json.dumps(dis[:3])))
+    return {"oracle_selfcheck": "SystemdExec!Parsed = real `systemd --test` dump on %d of %d raw argument texts (all strings of length <= 3 over 15 syntax characters, plus \\\\xHH and quoted forms)" % (len(exp) - len(dis), len(exp))}
